@@ -210,6 +210,9 @@ class Proc:
     cut_delay = 0.0  # virtual seconds between boundary k and the cut (0: next loop iteration)
     fails = False  # the operation ENDS IN FAILURE (error outcome) when nobody cuts the link
     flippable = False  # also run with link 1 initiated by B (the caller's stack is the link-layer peripheral)
+    controller_cfg = None  # attributes set on every virtual controller (e.g. the number of ACL buffers)
+    window = False  # the operation sits in ONE waiting state until something outside the link moves (the user, a slow
+    #                 bystander): every cut falls into that window whatever k is, so the quick tier draws no extra k
 
     async def setup(self, cx):
         """once per scenario: servers, services, pairing configuration"""
@@ -454,6 +457,66 @@ class PairPrompt(Proc):
         return await cx.conn[("A", 1)].pair()
 
 
+async def passkey_typing(answers, shown):
+    if not answers:
+        await asyncio.get_running_loop().create_future()  # the user walked away
+    await asyncio.sleep(5.0)
+    return shown[-1] if shown else 0
+
+
+class PairPasskeyPrompt(Proc):
+    """passkey entry, keyboard side: the stack of `keyboard` asks its delegate for the passkey the peer displays
+    (PairingDelegate.get_number) and the user (in the cut runs) never types it: the prompt is an operation the stack
+    started for the connection, it has to end (be cancelled) when the link goes.  Uncut and on the re-established link
+    the user types the displayed number after 5 s."""
+
+    name = "pair_passkey_prompt"
+    cut_delay = 1.0  # the cut falls into the gap after boundary k (the prompt is a gap without traffic)
+    window = True
+    sc = False
+    keyboard = 0  # index of the stack with the keyboard (0: the initiator of the pairing, 1: the responder)
+
+    async def setup(self, cx):
+        from bumble.pairing import PairingConfig, PairingDelegate
+
+        sc = cx.scenario
+        kb = self.keyboard
+        shown = []
+
+        class Display(PairingDelegate):
+            async def display_number(self, number, digits):
+                shown.append(number)
+
+        class Keyboard(PairingDelegate):
+            async def get_number(self):
+                name = "passkey_prompt" if cx.phase == 1 else "passkey_prompt.again"
+                return await sc.track_inline(name, passkey_typing(sc.kind is None or cx.phase == 2, shown), DEVS[kb], 1)
+
+        def factory(i):
+            cls, io = ((Keyboard, PairingDelegate.IoCapability.KEYBOARD_INPUT_ONLY) if i == kb
+                       else (Display, PairingDelegate.IoCapability.DISPLAY_OUTPUT_ONLY))
+            return lambda connection: PairingConfig(sc=self.sc, mitm=True, bonding=True, delegate=cls(io))
+
+        cx.A.pairing_config_factory = factory(0)
+        cx.B.pairing_config_factory = factory(1)
+
+    async def op(self, cx):
+        return await cx.conn[("A", 1)].pair()
+
+
+class PairPasskeyPromptSc(PairPasskeyPrompt):
+    name = "pair_passkey_prompt_sc"
+    sc = True
+
+
+class PairPasskeyPromptResponder(PairPasskeyPrompt):
+    """the responder of the pairing (B) has the keyboard"""
+
+    name = "pair_passkey_prompt_responder"
+    sc = True
+    keyboard = 1
+
+
 def _le_spec(psm):
     from bumble import l2cap
 
@@ -513,6 +576,7 @@ class QueueDrain(Proc):
 
     name = "data_queue_drain"
     flippable = True
+    controller_cfg = {"total_num_le_acl_data_packets": 2}
 
     async def op(self, cx):
         c = cx.conn[("A", 1)]
@@ -520,6 +584,58 @@ class QueueDrain(Proc):
             c.send_l2cap_pdu(0x0004, bytes([0x52, 0x30, 0x00, i]))  # ATT Write Command, unknown handle
         q = c.data_packet_queue
         return await q.drain(c.handle)
+
+
+def hold_completions(cx, idx, conn, seconds):
+    """the peer of `conn` is slow: for `seconds` virtual seconds the controller of stack `idx` reports no completed
+    packets for that connection (its Number Of Completed Packets events are held back at the tap and handed to the
+    host afterwards), so whatever is sent on `conn` keeps the controller's buffers occupied"""
+    from bumble import hci
+
+    tap = cx.net.stacks[idx].tap
+    loop = asyncio.get_running_loop()
+    held = []
+
+    def slow(packet):
+        if len(packet) > 2 and packet[0] == hci.HCI_EVENT_PACKET and packet[1] == hci.HCI_NUMBER_OF_COMPLETED_PACKETS_EVENT:
+            ev = hci.HCI_Packet.from_bytes(packet)
+            if list(ev.connection_handles) == [conn.handle]:
+                held.append(packet)
+                return True
+        return False
+
+    def release():
+        if tap.filter_c2h is slow:  # (a lost transport has its own filter: nothing is delivered any more)
+            tap.filter_c2h = None
+            for p in held:
+                tap.line_c2h.push(p)
+        held.clear()
+
+    tap.filter_c2h = slow
+    loop.call_later(seconds, release)
+
+
+class QueueDrainStarved(Proc):
+    """DataPacketQueue.drain on a connection whose outbound data is queued in the host with NOTHING of it in flight:
+    the two controller buffers are shared by A's links, the bystander link (peer C is slow: no completions for 5
+    virtual seconds) holds both, so what is written to link 1 waits in the host; a task drains link 1.  The cut
+    falls into that window (1 s after boundary k): the waiter has to be released although the closed connection
+    has nothing to give back to the buffer accounting."""
+
+    name = "data_queue_drain_starved"
+    controller_cfg = {"total_num_le_acl_data_packets": 2}
+    cut_delay = 1.0
+    window = True
+    flippable = True
+
+    async def op(self, cx):
+        c, other = cx.conn[("A", 1)], cx.conn[("A", 2)]
+        hold_completions(cx, 0, other, 5.0)
+        for i in range(2):
+            other.send_l2cap_pdu(0x0004, bytes([0x52, 0x30, 0x00, i]))  # ATT Write Command, unknown handle
+        for i in range(2):
+            c.send_l2cap_pdu(0x0004, bytes([0x52, 0x30, 0x00, 8 + i]))
+        return await c.data_packet_queue.drain(c.handle)
 
 
 class HciCommand(Proc):
@@ -674,7 +790,8 @@ class AvdtpDiscover(Proc):
 PROCS = {p.name: p for p in (
     GattRead, GattReadError, GattLongRead, GattWrite, GattDiscovery, GattIndicate,
     PairLegacy, PairSc, PairRejected, PairRejectedLegacy, PairDeclined, PairWrongPasskey, PairPrompt,
-    LeCocConnect, LeCocRefused, LeCocDisconnect, LeCocDrain, QueueDrain, HciCommand, HciRemoteFeatures,
+    PairPasskeyPrompt, PairPasskeyPromptSc, PairPasskeyPromptResponder,
+    LeCocConnect, LeCocRefused, LeCocDisconnect, LeCocDrain, QueueDrain, QueueDrainStarved, HciCommand, HciRemoteFeatures,
     ClassicConnect, ClassicRefused, ClassicDisconnect, RfcommOpen, SdpSearch, SdpError, AvdtpDiscover,
 )}
 
@@ -821,8 +938,7 @@ class Scenario:
         loop = asyncio.get_running_loop()
         loop.set_exception_handler(lambda l, c: self.unhandled.append(str(c.get("exception") or c.get("message"))))
         proc = PROCS[self.proc_name]()
-        ctrl_cfg = {"total_num_le_acl_data_packets": 2} if self.proc_name == "data_queue_drain" else None
-        net = rig.Net(3, seed=self.seed, max_delay=self.max_delay, controller_cfg=ctrl_cfg)
+        net = rig.Net(3, seed=self.seed, max_delay=self.max_delay, controller_cfg=proc.controller_cfg)
         self.net = net
         sources = None
         if self.kind == "source_loss":
